@@ -70,6 +70,7 @@ type cutSpec struct {
 	HasOffset bool   `json:"has_offset,omitempty"`
 	M         int64  `json:"m,omitempty"`
 	OffWord   string `json:"off_word,omitempty"`
+	ViaVars   bool   `json:"via_vars,omitempty"` // the counts are variables and the query runs twice with other integer arithmetic in between; the second result is judged
 }
 
 type sortCase struct {
@@ -540,6 +541,9 @@ func genCut(t *rapid.T, c *sortCase) {
 	if avoidKnownPercentOver100 && cut.Percent && cut.P100 > 10000 && rem > 100 {
 		cut.P100 = 10000
 	}
+	if cut.Form != "none" && cut.Form != "" {
+		cut.ViaVars = chance(t, "viaVars", 15)
+	}
 	c.Cut = cut
 }
 
@@ -604,11 +608,20 @@ func (c sortCase) orderBy() string {
 	return " ORDER BY " + strings.Join(items, ", ")
 }
 
+// cutVarsSQL declares the variables a ViaVars cut refers to.
+func (c sortCase) cutVarsSQL() string {
+	return fmt.Sprintf("VAR @cn := %d; VAR @cm := %d; VAR @cp := %s;", c.Cut.N, c.Cut.M, pctText(c.Cut.P100))
+}
+
 func (c sortCase) cutSQL() string {
 	cut := c.Cut
+	nText, mText, pText := fmt.Sprintf("%d", cut.N), fmt.Sprintf("%d", cut.M), pctText(cut.P100)
+	if cut.ViaVars {
+		nText, mText, pText = "@cn", "@cm", "@cp"
+	}
 	off := ""
 	if cut.HasOffset {
-		off = fmt.Sprintf(" OFFSET %d", cut.M)
+		off = " OFFSET " + mText
 		if cut.OffWord != "" {
 			off += " " + cut.OffWord
 		}
@@ -624,18 +637,18 @@ func (c sortCase) cutSQL() string {
 		return off
 	case "limit":
 		if cut.Percent {
-			return " LIMIT " + pctText(cut.P100) + " PERCENT" + mode + off
+			return " LIMIT " + pText + " PERCENT" + mode + off
 		}
-		s := fmt.Sprintf(" LIMIT %d", cut.N)
+		s := " LIMIT " + nText
 		if cut.RowWord != "" {
 			s += " " + cut.RowWord
 		}
 		return s + mode + off
 	case "fetch":
 		if cut.Percent {
-			return off + " FETCH " + cut.First + " " + pctText(cut.P100) + " PERCENT" + mode
+			return off + " FETCH " + cut.First + " " + pText + " PERCENT" + mode
 		}
-		return off + fmt.Sprintf(" FETCH %s %d %s", cut.First, cut.N, cut.RowWord) + mode
+		return off + fmt.Sprintf(" FETCH %s %s %s", cut.First, nText, cut.RowWord) + mode
 	}
 	return ""
 }
@@ -1075,6 +1088,19 @@ func checkCaseExt(c sortCase, pre string, refRows [][]val.Val) (fw.Outcome, *fw.
 		}
 	}
 	sql := c.baseSQL() + c.orderBy() + c.cutSQL()
+	if cut.ViaVars {
+		// the counts are read from variables; the query runs once, other integers and floats are computed, and
+		// the second run - the one judged below - must read the same counts again
+		addClass("cut_via_variables_second_run")
+		if r := s.Exec(c.cutVarsSQL()); r.Err != nil {
+			return o, fw.V("setup_error", "%s: %v", c.cutVarsSQL(), r.Err)
+		}
+		_, _ = s.Query(sql)
+		if r := s.Exec("VAR @zz1 := 100 + 23; VAR @zz2 := 7 * 6; VAR @zz3 := 0.5 + 0.25; VAR @zz4 := @zz1 - @zz2;"); r.Err != nil {
+			return o, fw.V("setup_error", "arithmetic between the runs: %v", r.Err)
+		}
+		sql = "/* second run; " + c.cutVarsSQL() + " */ " + sql
+	}
 	tbl, qerr := s.Query(sql)
 
 	wins, dontCare := m.windows()
